@@ -6,7 +6,7 @@
 import argparse, glob, json, os, shutil, subprocess, tempfile, time
 HERE = os.path.dirname(os.path.abspath(__file__)); VERIF = os.path.dirname(HERE)
 ap = argparse.ArgumentParser(); ap.add_argument('--only'); ap.add_argument('--tier', default='quick')
-ap.add_argument('--checks'); args = ap.parse_args()
+ap.add_argument('--checks'); ap.add_argument('--record', action='store_true'); args = ap.parse_args()
 only = set(args.only.split(',')) if args.only else None
 rows = []
 for d in sorted(glob.glob(os.path.join(VERIF, 'seeded', '*'))):
@@ -30,6 +30,10 @@ for d in sorted(glob.glob(os.path.join(VERIF, 'seeded', '*'))):
             verdict = {0: 'MISSED', 1: 'caught', 2: 'HARNESS-ERROR'}.get(r.returncode, str(r.returncode))
             print(f'{sid:28s} {prop} {verdict:8s} {time.time()-t0:5.1f}s {sigs}', flush=True)
             rows.append((sid, prop, verdict, sigs))
+            if args.record and verdict == 'caught':
+                meta['caught_by'] = {'check': prop, 'tier': args.tier, 'signatures': sigs,
+                                     'how_run': 'tools/seeded.py (patch applied to a scratch copy of /repo, check pointed at it via VERIF_REPO)'}
+                json.dump(meta, open(os.path.join(d, 'meta.json'), 'w'), indent=1)
     finally:
         shutil.rmtree(w, ignore_errors=True)
 print(f'{len(rows)} runs, {sum(1 for r in rows if r[2] != "caught")} not caught')
